@@ -263,3 +263,10 @@ Definition gates_eqb (a b : list (option (list nat) * option counter)) : bool :=
    Counter fdraw: the register projection of those shots, summing to nshots *)
 Definition handle_freq_okb (cfg : config) (reg : list nat) (fdraw hf : counter) (ns : nat) : bool :=
   counts_okb hf (map (spec_reg_dec cfg reg) (expand fdraw)) && (total hf =? ns).
+
+(* post-hoc accessor result.apply_bitflips(p0, p1) with a deterministic map: the returned shot is the
+   stored one with noiseless + (1 - noiseless) * flip_0 - noiseless * flip_1 applied bit by bit; m0 / m1
+   are over the measured qubits in the order they were given (0->1 fires / 1->0 fires) *)
+Definition flip_shot01 (k : nat) (m0 m1 : bits) (s : nat) : nat :=
+  to_dec (map (fun p : bool * bool * bool => if fst (fst p) then negb (snd p) else snd (fst p))
+              (combine (combine (to_bin k s) m0) m1)).
